@@ -24,6 +24,8 @@ CATALOGUE = {
     'G1': dict(ul=False, bbox=(0, 0, 80, 80), tw=4, th=4, res=(20,)),
     'Gunal': dict(ul=False, bbox=(7, 13, 647, 413), tw=4, th=4, res=(80, 40, 20)),
     'Gunalul': dict(ul=True, bbox=(7, 13, 647, 413), tw=4, th=4, res=(80, 40, 20)),
+    # sparse resolutions: gaps wider than stretch * max_shrink (level selection between the levels)
+    'Gsparse': dict(ul=False, bbox=(0, 0, 2000, 2000), tw=2, th=2, res=(1000, 100, 50)),
 }
 SN, SD = 5, 4          # stretch factor 1.25 (dyadic: exact in the exact regime)
 MS = 4                 # max shrink factor
@@ -126,7 +128,7 @@ class LatticeApp(object):
     """MapProxyApp on one lattice grid: layer `lay` <- cache `c` (file) <- WMS source `up` (faked)"""
 
     def __init__(self, g, srs='EPSG:3857', meta_size=(2, 2), meta_buffer=0, source_coverage=None, services=None,
-                 extra_conf=None, scale=1, featureinfo=False, wms_srs=None, grid_conf=None):
+                 extra_conf=None, scale=1, featureinfo=False, wms_srs=None, grid_conf=None, upstream_version=None):
         from mapproxy.config.loader import ProxyConfiguration
         from mapproxy.wsgiapp import MapProxyApp
         import mapproxy.client.http as http
@@ -140,6 +142,8 @@ class LatticeApp(object):
                'supported_srs': [srs]}
         if featureinfo:
             src['wms_opts'] = {'featureinfo': True}
+        if upstream_version:
+            src.setdefault('wms_opts', {})['version'] = upstream_version
         if source_coverage:
             src['coverage'] = {'bbox': [v * scale for v in source_coverage], 'srs': srs}
         conf = {
@@ -187,6 +191,8 @@ class LatticeApp(object):
             return buf
         self.log.append(q)
         bbox = [float(v) / self.scale for v in q['BBOX'].split(',')]
+        if q.get('VERSION') == '1.3.0' and q.get('CRS') == 'EPSG:4326':
+            bbox = [bbox[1], bbox[0], bbox[3], bbox[2]]       # WMS 1.3.0: the BBOX follows the axis order of the CRS
         size = (int(q['WIDTH']), int(q['HEIGHT']))
         img = paint_cells(self.g, bbox, size)
         buf = io.BytesIO()
